@@ -7,7 +7,6 @@ import (
 	"go/token"
 	"go/types"
 	"sort"
-	"strings"
 
 	"golang.org/x/tools/go/packages"
 )
@@ -19,26 +18,43 @@ type c50Names struct {
 	astPkgSuffix                 string   // package of the parsed statement types whose fields feed the overrides
 	mustEscape                   []string // option fields whose occurrences inside a value the writer has to escape
 	escapeField                  string
+	outfileField                 string // field of the OUTFILE node naming the file (a node without it configures no format)
 }
 
 func init() {
 	real := c50Names{planRel: "sql/plan", builderRel: "sql/planbuilder", execRel: "sql/rowexec", intoType: "Into", loadType: "LoadData",
 		intoCtor: "NewInto", loadCtor: "NewLoadData", astPkgSuffix: "vitess/go/vt/sqlparser",
-		mustEscape: []string{"FieldsEscapedBy", "FieldsEnclosedBy", "FieldsTerminatedBy", "LinesTerminatedBy"}, escapeField: "FieldsEscapedBy"}
+		mustEscape: []string{"FieldsEscapedBy", "FieldsEnclosedBy", "FieldsTerminatedBy", "LinesTerminatedBy"}, escapeField: "FieldsEscapedBy", outfileField: "Outfile"}
 	fx := real
 	fx.planRel, fx.builderRel, fx.execRel, fx.astPkgSuffix = "testdata/c50/plan", "testdata/c50/builder", "testdata/c50/exec", "testdata/c50/ast"
+	fxo := real
+	fxo.planRel, fxo.builderRel, fxo.execRel, fxo.astPkgSuffix = "testdata/c50/oplan", "testdata/c50/obuilder", "testdata/c50/oexec", "testdata/c50/oast"
 	register(&Property{
 		ID:        "C50",
 		Patterns:  []string{"./sql/rowexec", "./sql/planbuilder"},
-		Technique: "writer/reader option tables over go/types: constructor literals folded with go/constant, planbuilder override sources as AST field paths, field-read coverage of both executors, escape-set coverage of the OUTFILE writer",
+		Technique: "writer/reader option tables over go/types: constructor literals folded with go/constant; planbuilder override predicates read off go/cfg (branch edges and case clauses that dominate an assignment), put into negation normal form and canonicalised (nil/emptiness/length tests, single-assignment locals, conversions), compared between the two sibling builders; carrier wiring, field-read coverage and construction sites (who-may-construct) of both executors; constant/escape-letter tables of the NULL representation; escape-set coverage of the OUTFILE writer",
 		Explanation: "SELECT ... INTO OUTFILE (plan.Into, written by rowexec.buildInto) and LOAD DATA (plan.LoadData, read by rowexec's loadDataIter) share six format options. Decided: " +
 			"(D1) plan.NewInto and plan.NewLoadData initialise every shared option to the same constant value; (D2) the planbuilder overrides each option of both nodes from the same fields of the parsed statement " +
 			"(same set of AST field paths in the assigned value and its guarding conditions); (D3) every option is read by both executors (for LOAD DATA also the iterator field that carries it), so an option " +
 			"that one side honours is not ignored by the other; (E1) the OUTFILE writer escapes, inside string values, every option string that the LOAD DATA reader treats as special " +
-			"(escape character, enclosure, field terminator, line terminator), prefixing it with the escape string. A violated instance means that rows exported with some option combination are read back differently.",
-		NotCovered: "that escaping and unescaping are inverse on every value (only the set of escaped delimiters is decided), NULL representation, character sets, DUMPFILE, SET/user-variable handling of LOAD DATA, " +
-			"guards that only differ in how they compare (e.g. TERMINATED BY '' handling)",
-		Run: func(c *Ctx) { runC50(c, real, 6) },
+			"(escape character, enclosure, field terminator, line terminator), prefixing it with the escape string; " +
+			"(O1) per option, the condition under which the user's text replaces the default and the value that is stored are the same for both nodes: the branch conditions that dominate each override assignment " +
+			"(minus those that already hold where the node is created) are compared in canonical form - specified (non-nil), specified-and-non-empty, flag set - so `ESCAPED BY ''` (no escaping) cannot be honoured by one statement and " +
+			"treated as 'not specified' by the other; a non-emptiness test on an option whose default is the empty string, and `X = flag` for `if flag { X = true }`, are recognised as neutral; " +
+			"(O2) every iterator field that carries an option is initialised from one option, and from its namesake if it is named after an option (no cross-wiring of e.g. enclosure and escape); " +
+			"(O3) NULL representation: the text the writer emits for a nil value under each emission condition (the word NULL with escaping disabled, <escape>N otherwise) is mapped to NULL by the reader (word compared against the field; " +
+			"escape-letter switch with an arm that yields such a word), the reader interprets escape letters under every option condition under which the writer relies on them, and the reader maps no other bare word to NULL " +
+			"where the writer uses the escape letter; (O4) every option value that the planbuilder rejects for LOAD DATA is rejected for INTO OUTFILE too (no file can be written with options its reader refuses); " +
+			"(O5) neither executor hard-codes a non-empty default delimiter (tab, backslash, newline) instead of using the option; (O6) plan.Into nodes with an output file and plan.LoadData nodes are only created " +
+			"where every option is then overridden from the statement, and literals of the two types occur only in their constructors (copies keep the options). " +
+			"A violated instance means that rows exported with some option combination are read back differently (or cannot be read back) with the same options.",
+		NotCovered: "that escaping and unescaping are inverse on every value (only the set of escaped delimiters, the NULL marker and the option plumbing are decided): enclosure doubling, multi-character delimiters inside values, " +
+			"embedded line terminators; the role in which each executor uses an option beyond the namesake check (a consistent swap in both builders is not seen); overrides moved into a helper function on one side only are compared as " +
+			"opaque calls; character sets, DUMPFILE, SET/user-variable handling of LOAD DATA, LINES TERMINATED BY '' (the reader cannot split on an empty terminator)",
+		Run: func(c *Ctx) {
+			runC50(c, real, 6)
+			runC50Opts(c, real, c50Floors{o1: 6, o2: 5, o3: 3, o4: 2, o5: 9, o6: 4})
+		},
 		Fixture: func(c *Ctx, fx2 *Prog) {
 			expectFixture(c, fx2, "c50: different default, different override source, option ignored by one executor, unescaped delimiter must be reported",
 				[]string{
@@ -49,8 +65,19 @@ func init() {
 					"C50-E1:buildInto/FieldsTerminatedBy", "C50-E1:buildInto/FieldsEnclosedBy", "C50-E1:buildInto/FieldsEscapedBy",
 				},
 				func(fc *Ctx) { runC50(fc, fx, 0) })
+			expectFixture(c, fx2, "c50 option plumbing: extra emptiness guard on one override, cross-wired carrier, missing NULL escape letter, reader-only rejection, hard-coded escape character, node rebuilt through the constructor must be reported",
+				[]string{
+					"C50-O1:FieldsEscapedBy",
+					"C50-O2:loadIter.linesStartingBy",
+					"C50-O3:buildInto/NULL with escaping enabled",
+					"C50-O4:len(%.FieldsEnclosedBy)>=2",
+					"C50-O5:loadIter.parse/FieldsEscapedBy",
+					"C50-O6:Into.Copy/NewInto(Outfile=i.Outfile)",
+				},
+				func(fc *Ctx) { runC50Opts(fc, fxo, c50Floors{}) })
 		},
-		FixturePkgs: []string{"./testdata/c50/plan", "./testdata/c50/builder", "./testdata/c50/exec", "./testdata/c50/ast"},
+		FixturePkgs: []string{"./testdata/c50/plan", "./testdata/c50/builder", "./testdata/c50/exec", "./testdata/c50/ast",
+			"./testdata/c50/oplan", "./testdata/c50/obuilder", "./testdata/c50/oexec", "./testdata/c50/oast"},
 	})
 }
 
@@ -181,130 +208,12 @@ func runC50(c *Ctx, nm c50Names, nOpts int) {
 		}
 	}
 
-	// ---- D2: planbuilder override sources ---------------------------------------------------------------
-	isASTRoot := func(info *types.Info, id *ast.Ident) bool {
-		o := info.Uses[id]
-		if o == nil {
-			return false
-		}
-		nt := named(o.Type())
-		return nt != nil && nt.Obj().Pkg() != nil && strings.HasSuffix(nt.Obj().Pkg().Path(), nm.astPkgSuffix)
-	}
-	pathsOf := func(info *types.Info, e ast.Node, into map[string]bool) {
-		ast.Inspect(e, func(n ast.Node) bool {
-			sel, ok := n.(*ast.SelectorExpr)
-			if !ok {
-				return true
-			}
-			var parts []string
-			x := ast.Expr(sel)
-			for {
-				s, ok := ast.Unparen(x).(*ast.SelectorExpr)
-				if !ok {
-					break
-				}
-				if selInfo := info.Selections[s]; selInfo == nil || selInfo.Kind() != types.FieldVal {
-					return true
-				}
-				parts = append([]string{s.Sel.Name}, parts...)
-				x = s.X
-			}
-			if id, ok := ast.Unparen(x).(*ast.Ident); ok && isASTRoot(info, id) {
-				for i := 1; i <= len(parts); i++ {
-					into[strings.Join(parts[:i], ".")] = true
-				}
-				return false
-			}
-			return true
-		})
-	}
-	src := map[string]map[string]map[string]bool{nm.intoType: {}, nm.loadType: {}}
-	srcPos := map[string]token.Pos{}
-	binfo := bp.TypesInfo
-	for _, file := range bp.Syntax {
-		var stack []ast.Node
-		ast.Inspect(file, func(n ast.Node) bool {
-			if n == nil {
-				stack = stack[:len(stack)-1]
-				return true
-			}
-			stack = append(stack, n)
-			as, ok := n.(*ast.AssignStmt)
-			if !ok {
-				return true
-			}
-			for i, l := range as.Lhs {
-				sel, ok := ast.Unparen(l).(*ast.SelectorExpr)
-				if !ok || !isOpt[sel.Sel.Name] {
-					continue
-				}
-				nt := named(binfo.TypeOf(sel.X))
-				side := ""
-				if nt == intoT {
-					side = nm.intoType
-				} else if nt == loadT {
-					side = nm.loadType
-				}
-				if side == "" {
-					continue
-				}
-				set := src[side][sel.Sel.Name]
-				if set == nil {
-					set = map[string]bool{}
-					src[side][sel.Sel.Name] = set
-				}
-				if _, seen := srcPos[side+"."+sel.Sel.Name]; !seen {
-					srcPos[side+"."+sel.Sel.Name] = as.Pos()
-				}
-				if len(as.Rhs) == len(as.Lhs) {
-					pathsOf(binfo, as.Rhs[i], set)
-				}
-				for _, anc := range stack {
-					if ifs, ok := anc.(*ast.IfStmt); ok && ifs.Body.Pos() <= as.Pos() && as.End() <= ifs.Body.End() {
-						g := map[string]bool{}
-						pathsOf(binfo, ifs.Cond, g)
-						for p := range g {
-							set["guard:"+p] = true
-						}
-					}
-				}
-			}
-			return true
-		})
-	}
-	// only paths through the option clauses count: a guard on another attribute of the statement (which form of INTO,
-	// LOCAL, ...) is not an option source. Option clauses = first components of the paths assigned as values.
-	clauseRoots := map[string]bool{}
-	for _, side := range src {
-		for _, set := range side {
-			for p := range set {
-				if !strings.HasPrefix(p, "guard:") {
-					clauseRoots[strings.SplitN(p, ".", 2)[0]] = true
-				}
-			}
-		}
-	}
-	render := func(m map[string]bool) string {
-		var ks []string
-		for k := range m {
-			k = strings.TrimPrefix(k, "guard:")
-			if clauseRoots[strings.SplitN(k, ".", 2)[0]] {
-				ks = append(ks, k)
-			}
-		}
-		sort.Strings(ks)
-		ks = compactStrings(ks)
-		sort.Strings(ks)
-		return "{" + strings.Join(ks, ", ") + "}"
-	}
-	for _, f := range opts {
-		a, b := src[nm.intoType][f], src[nm.loadType][f]
-		pos := srcPos[nm.intoType+"."+f]
-		if !pos.IsValid() {
-			pos = srcPos[nm.loadType+"."+f]
-		}
-		c.Check(render(a) == render(b), "C50-D2", f, pos, render(a),
-			fmt.Sprintf("option %s is overridden from %s for %s but from %s for %s: the same FIELDS/LINES clause configures the writer and the reader differently", f, render(a), nm.intoType, render(b), nm.loadType))
+	// ---- D2: planbuilder override sources (c50_opts.go: shares the canonical guards of C50-O1, so local aliases of statement
+	// parts and rewritten conditions do not matter) ---------------------------------------------------------------------
+	if om := c50newModel(c, nm); om != nil {
+		om.ruleD2()
+	} else {
+		c.Undecided("C50-D2", "model", 0, "plan node types, constructors or shared options not found")
 	}
 
 	// ---- D3: both executors read every option -------------------------------------------------------------
@@ -408,6 +317,26 @@ func runC50(c *Ctx, nm c50Names, nOpts int) {
 		c.Undecided("C50-E1", "writer", 0, "no function of "+nm.execRel+" reads the options of "+nm.intoType)
 		return
 	}
+	// single-assignment locals of the writer stand for their definition (esc := n.FieldsEscapedBy)
+	var wsubst map[types.Object]ast.Expr
+	if om := c50newModel(c, nm); om != nil {
+		wsubst = om.fn(ep, DeclName(writer), writer.Body).cx.subst
+	}
+	resolve := func(e ast.Expr) ast.Expr {
+		e = ast.Unparen(e)
+		for i := 0; i < 8; i++ {
+			id, ok := e.(*ast.Ident)
+			if !ok {
+				break
+			}
+			d := wsubst[einfo.Uses[id]]
+			if d == nil {
+				break
+			}
+			e = ast.Unparen(d)
+		}
+		return e
+	}
 	escaped := map[string]token.Pos{}
 	ast.Inspect(writer.Body, func(m ast.Node) bool {
 		call, ok := m.(*ast.CallExpr)
@@ -418,18 +347,27 @@ func runC50(c *Ctx, nm c50Names, nOpts int) {
 		if fn == nil || fn.Pkg() == nil || fn.Pkg().Path() != "strings" || (fn.Name() != "Replace" && fn.Name() != "ReplaceAll") || len(call.Args) < 3 {
 			return true
 		}
-		old, ok := ast.Unparen(call.Args[1]).(*ast.SelectorExpr)
+		old, ok := resolve(call.Args[1]).(*ast.SelectorExpr)
 		if !ok || named(einfo.TypeOf(old.X)) != intoT {
 			return true
 		}
 		// the replacement must start from the escape option
 		usesEsc := false
-		ast.Inspect(call.Args[2], func(x ast.Node) bool {
-			if s, ok := x.(*ast.SelectorExpr); ok && s.Sel.Name == nm.escapeField && named(einfo.TypeOf(s.X)) == intoT {
-				usesEsc = true
-			}
-			return true
-		})
+		var walk func(e ast.Node, depth int)
+		walk = func(e ast.Node, depth int) {
+			ast.Inspect(e, func(x ast.Node) bool {
+				if s, ok := x.(*ast.SelectorExpr); ok && s.Sel.Name == nm.escapeField && named(einfo.TypeOf(s.X)) == intoT {
+					usesEsc = true
+				}
+				if id, ok := x.(*ast.Ident); ok && depth < 8 {
+					if d := resolve(id); d != ast.Expr(id) {
+						walk(d, depth+1)
+					}
+				}
+				return true
+			})
+		}
+		walk(call.Args[2], 0)
 		if usesEsc {
 			escaped[old.Sel.Name] = call.Pos()
 		}
